@@ -308,6 +308,14 @@ def build_all_harnesses(workers=6):
             if h.get("thorough_only"):
                 continue
             jobs.append((d.name, h))
+        extra = getattr(prop, "setup_extra_builds", None)
+        if extra is not None:
+            try:
+                for pid2, h2 in extra():
+                    if not any(j[0] == pid2 and j[1]["name"] == h2["name"] for j in jobs):
+                        jobs.append((pid2, h2))
+            except Exception as e:  # noqa
+                print("harness", d.name, "setup_extra_builds failed:", e)
 
     def one(job):
         pid, h = job
